@@ -250,6 +250,19 @@ class _Eval:
 
         self.chain(w, ["fresh", "rt1", "rt2", "rt3"], kw)
 
+        # the SAME wrapper pickled twice with a use in between: the second pickle must carry the state the
+        # wrapped object has *then* (repeated round trips of one wrapper, not only of its copies)
+        try:
+            base3 = subj.build()
+            w3 = L.wrap(base3, keep_wrapper=kw)(*subj.ctor[0], **subj.ctor[1]) if subj.is_class else L.wrap(base3, keep_wrapper=kw)
+            pickle.dumps(w3)
+            self.compare(w3, 0, "same_fresh")
+            out3 = pickle.loads(pickle.dumps(w3))
+            self.stats["roundtrips"] += 2
+            self.compare(out3, 1, "same_rt_after_use")
+        except Exception as e:  # noqa: BLE001
+            self.fail("roundtrip_fails", "same_rt_after_use", "pickling the same wrapper twice works", "%s: %s" % (type(e).__name__, str(e)[:300]))
+
         # wrapper of a wrapper (independent copy of the object)
         try:
             base2 = subj.build()
